@@ -1,5 +1,4 @@
-import N2k.Lemmas.DeviceListFrame
-import N2k.Spec.DeviceMap
+import N2k.Lemmas.DeviceListRefine
 /-!
 # C18 - the optional device list mirrors the address claims seen on the bus
 
@@ -11,12 +10,6 @@ quantified.
 -/
 namespace N2k.C18
 open N2k.DeviceList N2k.Spec.DeviceMap
-
-/-- the address claim a delivered message stands for (messages from sources ≥ 254 are not bus devices) -/
-def claimOf (m : Msg) : Option (Nat × Nat) :=
-  if m.pgn = pgnClaim ∧ m.source < MaxBusDevices then some (m.source, claimName m) else none
-
-def claimsOf (h : List (Env × Msg)) : List (Nat × Nat) := h.filterMap fun em => claimOf em.2
 
 /-- **C18, invariant and memory safety.** For EVERY history of delivered messages (any sources, PGNs, payloads,
 clock values, send outcomes, junk in uninitialised memory) no run of `HandleMsg` returns a `Fault` (no use after
@@ -35,72 +28,6 @@ theorem C18_one_entry_per_name (h : List (Env × Msg)) :
     exact ⟨a, d, hd, hsrc⟩
   · intro i j idi idj di dj hsi hsj hdi hdj hn h0
     exact hi.good.uniq i j di dj (by simp [devAt, hsi, hdi]) (by simp [devAt, hsj, hdj]) hn h0
-
-/-- the list shows every binding of the specification maps -/
-def Refines (s : State) (m : DMap) : Prop :=
-  ∀ n src, m.byName n = some src → ∃ d, devAt s src = some d ∧ d.name = n
-
-theorem refines_step {e : Env} {s s' : State} {msg : Msg} {m : DMap} (hc : Cons m) (hr : Refines s m)
-    (hd : StepDesc e s s' msg) :
-    Refines s' (match claimOf msg with | some c => m.claim c.1 c.2 | none => m) := by
-  unfold claimOf
-  by_cases hcl : msg.pgn = pgnClaim ∧ msg.source < MaxBusDevices
-  · simp only [hcl, and_self, if_true]
-    obtain ⟨h1, h2⟩ := step_names_claim hd hcl.1 hcl.2
-    obtain ⟨_, _, hsub, _⟩ := hc.claim msg.source (claimName msg)
-    intro n x hx
-    rcases hsub n x hx with ⟨hn, hxs⟩ | ⟨hn, hxs, hm⟩
-    · subst hn hxs; exact h1
-    · obtain ⟨d, hd1, hd2⟩ := hr n x hm
-      obtain ⟨d', hd3, hd4⟩ := h2 x d hxs hd1 (by rw [hd2]; exact hn)
-      exact ⟨d', hd3, by rw [hd4, hd2]⟩
-  · simp only [hcl, if_false]
-    intro n x hx
-    obtain ⟨d, hd1, hd2⟩ := hr n x hx
-    have hnc : msg.pgn ≠ pgnClaim ∨ msg.source ≥ MaxBusDevices := by
-      by_cases h : msg.pgn = pgnClaim
-      · exact Or.inr (by have := fun h2 => hcl ⟨h, h2⟩; omega)
-      · exact Or.inl h
-    obtain ⟨d', hd3, hd4⟩ := step_names_other hd hnc hd1
-    exact ⟨d', hd3, by rw [hd4, hd2]⟩
-
-theorem refines_run : ∀ (h : List (Env × Msg)) {s : State} {m : DMap}, Inv s → Cons m → Refines s m →
-    ∃ s', run s h = .ok s' ∧ Inv s' ∧ Refines s' (runClaims m (claimsOf h)) := by
-  intro h
-  induction h with
-  | nil => intro s m hi _ hr; exact ⟨s, rfl, hi, hr⟩
-  | cons em t ih =>
-    intro s m hi hc hr
-    obtain ⟨s1, h1, hi1, hd⟩ := handleMsg_spec em.1 hi em.2
-    have hr1 := refines_step hc hr hd
-    cases hcl : claimOf em.2 with
-    | none =>
-      rw [hcl] at hr1
-      obtain ⟨s', h2, hi2, hr2⟩ := ih hi1 hc hr1
-      refine ⟨s', by simp [run, h1, h2], hi2, ?_⟩
-      simpa [claimsOf, List.filterMap_cons, hcl] using hr2
-    | some c =>
-      rw [hcl] at hr1
-      obtain ⟨s', h2, hi2, hr2⟩ := ih hi1 (hc.claim c.1 c.2).1 hr1
-      refine ⟨s', by simp [run, h1, h2], hi2, ?_⟩
-      simpa [claimsOf, List.filterMap_cons, hcl, runClaims] using hr2
-
-/-- a binding shown by the list is what both lookups return -/
-theorem lookups_of_entry {s : State} (hi : Inv s) {n src : Nat} {d : Device} (hn : n ≠ 0)
-    (hd : devAt s src = some d) (hdn : d.name = n) :
-    ∃ id, findByName s n = .ok (some id) ∧ findBySource s src = some id ∧ s.heap id = some d ∧ d.source = src := by
-  obtain ⟨hsrc, h254, _, id, hsi, hhd⟩ := devAt_src hi.st hd
-  obtain ⟨r, hr, hsome, hnone⟩ := findByName_spec hi.st n
-  cases r with
-  | none => exact absurd hdn (hnone rfl src d hd)
-  | some id' =>
-    obtain ⟨j, d', hsj, hd', hn', _, hda'⟩ := hsome id' rfl
-    have hj : j = src := hi.good.uniq j src d' d hda' hd (by rw [hn', hdn]) (by rw [hn']; exact hn)
-    subst hj
-    rw [hsi] at hsj; cases hsj
-    refine ⟨id, hr, ?_, hhd, hsrc⟩
-    have : ¬ j ≥ MaxBusDevices := by omega
-    simp [findBySource, this, hsi]
 
 /-- **C18, refinement.** For every history the list refines the two-map specification: whenever the
 specification (fed with the address claims of the history, sources 0..253) says `NAME n ↦ source src`, then
@@ -174,12 +101,6 @@ theorem C18_updated_flag (h : List (Env × Msg)) (e : Env) (m : Msg) :
   · exact Or.inl hf
   · exact Or.inr (fun n hn o => hv.reports hn o)
 
-theorem run_ok_append {s s1 s2 : State} {a b : List (Env × Msg)} (h1 : run s a = .ok s1) (h2 : run s1 b = .ok s2) :
-    run s (a ++ b) = .ok s2 := by rw [run_append, h1]; exact h2
-
-theorem run_ok_cons {s s1 s2 : State} {e : Env} {m : Msg} {t : List (Env × Msg)} (h1 : handleMsg e s m = .ok s1)
-    (h2 : run s1 t = .ok s2) : run s ((e, m) :: t) = .ok s2 := by simp [run, h1, h2]
-
 /-- **C18, product information (partial).** Let the non-zero NAME `n` claim source `src < 254` (message `mc`),
 let `mp` be the first PGN 126996 from `src` after that claim, and let no address claim from `src` or of `n` occur
 after `mc` (`Quiet`: the claim is the latest one of `n` and is not displaced). Then for every continuation the
@@ -247,5 +168,63 @@ theorem C18_parked_entry_witness :
       d.name = 0xA1 ∧ parseProd ⟨5000, true, 0, fun _ => 0⟩ ⟨pgnProd, 0, [222, 0, 222, 0]⟩ = .ok p ∧
       p.productCode = 222 ∧ d.prod.productCode = 111 :=
   ⟨_, _, _, _, rfl, rfl, rfl, rfl, rfl, rfl, rfl⟩
+
+/-- **C18, PGN lists.** Let the list show NAME `n` under `src` (after `pre`), let `ml` be a PGN 126464 from `src`
+of kind `which` (0 = transmit, 1 = receive) and let it be the latest of that kind from `src`, with no address
+claim from `src` or of `n` afterwards. Then the getter of that kind (`GetTransmitPGNs` / `GetReceivePGNs`) of the
+entry under `src` (NAME `n`) returns exactly the 3-byte values of `ml` up to the first 0 (0 terminates a list in
+the API), whatever was stored before (shorter, longer, no list) and whatever else is received. -/
+theorem C18_information_pgns (pre post : List (Env × Msg)) (e1 : Env) (ml : Msg) (n which : Nat)
+    (hshown : Shows pre ml.source n) (hsrc : ml.source < MaxBusDevices)
+    (hpgn : ml.pgn = pgnList) (hwhich : which = 0 ∨ which = 1) (hty : listType ml = which)
+    (hpost : Quiet post ml.source n)
+    (hlatest : ∀ em ∈ post, ¬ (em.2.source = ml.source ∧ em.2.pgn = pgnList ∧ listType em.2 = which)) :
+    ∃ s id d, run State.init (pre ++ (e1, ml) :: post) = .ok s ∧ findBySource s ml.source = some id ∧
+      s.heap id = some d ∧ d.name = n ∧
+      getPGNs (d.pgnBlock which) = .ok (some ((pgnListOf ml).takeWhile (· ≠ 0))) := by
+  obtain ⟨s0, d0, hs0, hi0, hd0, hn0⟩ := shows_entry hshown
+  obtain ⟨s1, hs1, hi1, hdesc⟩ := handleMsg_spec e1 hi0 ml
+  obtain ⟨d1, hd1, hn1, hg1⟩ := step_pgn_store hdesc hi0 hwhich hd0 hsrc hpgn hty
+  obtain ⟨s2, d2, hs2, hi2, hd2, hn2, hb2⟩ := run_pgn_keep post hwhich hi1 hd1 (by rw [hn1, hn0]; exact hpost) hlatest
+  obtain ⟨id, hf, hh⟩ := entry_lookup hi2 hd2
+  exact ⟨s2, id, d2, run_ok_append hs0 (run_ok_cons hs1 hs2), hf, hh, by rw [hn2, hn1, hn0], by rw [hb2]; exact hg1⟩
+
+/-- **C18, configuration information.** Let the list show NAME `n` under `src`, let `mc` be a PGN 126998 from `src`
+whose size query succeeds (three well-formed variable-length fields) and let it be the latest 126998 from `src`,
+with no address claim from `src` or of `n` afterwards. Then the three getters of the entry under `src` return
+exactly the C strings that `GetVarStr` leaves in three separate buffers of the queried sizes (`confField`: null
+for an empty field; `j1 j2 j3` are the previous contents of those buffers) - whatever sizes were stored before
+(block reused or reallocated) and whatever else is received. What `GetVarStr` leaves is C16's subject. -/
+theorem C18_information_conf (pre post : List (Env × Msg)) (e1 : Env) (mc : Msg) (n : Nat)
+    (hshown : Shows pre mc.source n) (hsrc : mc.source < MaxBusDevices)
+    (hpgn : mc.pgn = pgnConf) (hq : (parseConfSizes mc.text).ok = true)
+    (hpost : Quiet post mc.source n)
+    (hlatest : ∀ em ∈ post, ¬ (em.2.source = mc.source ∧ em.2.pgn = pgnConf)) :
+    ∃ s id d j1 j2 j3, run State.init (pre ++ (e1, mc) :: post) = .ok s ∧ findBySource s mc.source = some id ∧
+      s.heap id = some d ∧ d.name = n ∧
+      d.getInstallationDescription1 = .ok (confField mc.text (confPlan mc.text).B (confPlan mc.text).idx1 j1) ∧
+      d.getInstallationDescription2 = .ok (confField mc.text (confPlan mc.text).C (confPlan mc.text).idx2 j2) ∧
+      d.getManufacturerInformation = .ok (confField mc.text (confPlan mc.text).A (confPlan mc.text).idx3 j3) := by
+  obtain ⟨s0, d0, hs0, hi0, hd0, hn0⟩ := shows_entry hshown
+  obtain ⟨s1, hs1, hi1, hdesc⟩ := handleMsg_spec e1 hi0 mc
+  obtain ⟨d1, j1, j2, j3, hd1, hn1, g1, g2, g3⟩ := step_conf_store hdesc hi0 hd0 hsrc hpgn hq
+  obtain ⟨s2, d2, hs2, hi2, hd2, hn2, hb2⟩ := run_conf_keep post hi1 hd1 (by rw [hn1, hn0]; exact hpost) hlatest
+  obtain ⟨id, hf, hh⟩ := entry_lookup hi2 hd2
+  obtain ⟨k1, k2, k3⟩ := hb2.getters
+  exact ⟨s2, id, d2, j1, j2, j3, run_ok_append hs0 (run_ok_cons hs1 hs2), hf, hh, by rw [hn2, hn1, hn0],
+    by rw [k2]; exact g1, by rw [k3]; exact g2, by rw [k1]; exact g3⟩
+
+/-- the hypotheses of `C18_information_pgns` / `C18_information_conf` are satisfiable: after the claim of NAME A1
+    for source 5 the list shows A1 under 5; a transmit list; a 126998 with the fields "a", "b", "M" -/
+example : Shows [(⟨0, true, 0, fun _ => 0⟩, ⟨pgnClaim, 5, [0xA1, 0, 0, 0, 0, 0, 0, 0]⟩)] 5 0xA1 ∧
+    listType ⟨pgnList, 5, [0, 0x10, 0xF0, 0x01]⟩ = 0 ∧ pgnListOf ⟨pgnList, 5, [0, 0x10, 0xF0, 0x01]⟩ = [126992] ∧
+    (parseConfSizes (Msg.text ⟨pgnConf, 5, [3, 1, 0x61, 3, 1, 0x62, 3, 1, 0x4D]⟩)).ok = true ∧
+    Quiet [] 5 0xA1 :=
+  ⟨by intro s0 hs0
+      have : run State.init [((⟨0, true, 0, fun _ => 0⟩ : Env), (⟨pgnClaim, 5, [0xA1, 0, 0, 0, 0, 0, 0, 0]⟩ : Msg))] =
+          .ok s0 := hs0
+      cases hs0
+      exact ⟨_, _, rfl, rfl, rfl⟩,
+   rfl, rfl, rfl, by intro em hem; cases hem⟩
 
 end N2k.C18
